@@ -2,6 +2,7 @@ package engine
 
 import (
 	"fmt"
+	"go/constant"
 	"go/types"
 	"strings"
 
@@ -140,6 +141,9 @@ func (e *fnEnc) libCall(v ssa.Value, fn *ssa.Function, c *ssa.CallCommon, args [
 			ek := e.S().ElemKey(types.Typ[types.String])
 			h := e.heap(ek)
 			e.vc.assume(fmt.Sprintf("(= (select (select %s (c-ref %s)) (+ (c-off %s) (- (c-len %s) 1))) (splitlast %s %s))", h, n, n, n, args[0], args[1]))
+		} else if l, ok := lit(1); ok && l != "" && name == "strings.SplitN" && splitNPositive(c.Args[2]) {
+			// SplitN(s, sep, n) with a non-empty separator and a constant n > 0 returns between 1 and n pieces
+			e.vc.assume(fmt.Sprintf("(>= (c-len %s) 1)", n))
 		} else {
 			e.vc.assume(fmt.Sprintf("(>= (c-len %s) 0)", n))
 		}
@@ -412,4 +416,14 @@ func containsByteFormula(s string, c int, vc *VC) string {
 	vc.nfresh++
 	q := fmt.Sprintf("q!cb!%d", vc.nfresh)
 	return fmt.Sprintf("(exists ((%s Int)) (and (<= 0 %s) (< %s (s-len %s)) (= (select (s-base %s) (+ (s-off %s) %s)) %d)))", q, q, q, s, s, s, q, c)
+}
+
+// splitNPositive reports whether v is an integer constant greater than zero.
+func splitNPositive(v ssa.Value) bool {
+	c, ok := v.(*ssa.Const)
+	if !ok || c.Value == nil || c.Value.Kind() != constant.Int {
+		return false
+	}
+	n, exact := constant.Int64Val(c.Value)
+	return exact && n > 0
 }
